@@ -18,7 +18,7 @@ PROP = "C18"
 LEVEL = "exploration"
 RULE = ("Initial state in {absent, healthy with data, pointer lost, creation interrupted (metadata written, pointer missing)} x backend {local, conditional-write "
         "S3} x 2-3 concurrent actors from {create_table(schema A), create_table(schema B), create_table() without schema, load_table, create-then-append with or "
-        "without a schema argument, create_table whose own pointer write fails cleanly}; interleavings owned by the deterministic scheduler (exhaustive single-preemption enumeration for fixed scenarios, "
+        "without a schema argument, create_table whose own pointer write fails cleanly}, optionally with a lock timeout so short (0.03-0.2 virtual s) that waiting creators time out; interleavings owned by the deterministic scheduler (exhaustive single-preemption enumeration for fixed scenarios, "
         "Hypothesis PCT schedules for generated ones). Oracle at the end: every metadata file and every returned handle carry ONE table uuid; a pre-existing "
         "table keeps its uuid, schema and rows; the persisted schema is one of the supplied ones and is what schema-less appends used; every append that "
         "returned success is readable exactly once; an append with no schema available raised and wrote no snapshot; load_table raised 'no table' or returned "
@@ -78,7 +78,12 @@ def actor_fn(world, kind, idx, results):
                 rec["create_error"] = f"{type(e).__name__}: {str(e)[:80]}"
                 return rec
         else:
-            t = datashard.create_table(loc, sch)
+            try:
+                t = datashard.create_table(loc, sch)
+            except TimeoutError as e:
+                # only with a short lock timeout: a creator that cannot get the lock in time fails - it must not carry on without it
+                rec["create_error"] = f"TimeoutError: {str(e)[:80]}"
+                return rec
         rec["handle"] = t
         rec["uuid_at_return"] = uuid_of(t)  # from here on the table exists: its identity must never change
         if "append" in kind:
@@ -124,8 +129,34 @@ def run_case(case):
 
                     raise client_error("AccessDenied", "PutObject", 403)
 
-        with (no_exclusion_lock() if noexcl else __import__("contextlib").nullcontext()):
+        import contextlib as _cl
+
+        @_cl.contextmanager
+        def short_lock_timeout():
+            # every lock the local backend hands out times out after sc["lock_timeout"] virtual seconds (a creator stalled behind a
+            # slow holder): the waiter must FAIL, never proceed unlocked
+            if not sc.get("lock_timeout") or world.kind != "local":
+                yield
+                return
+            from datashard.storage_backend import LocalStorageBackend as _B
+
+            orig = _B.create_lock
+
+            def create_lock(self_, path, timeout=30.0):
+                return orig(self_, path, timeout=sc["lock_timeout"])
+
+            _B.create_lock = create_lock
+            try:
+                yield
+            finally:
+                _B.create_lock = orig
+
+        with (no_exclusion_lock() if noexcl else _cl.nullcontext()), short_lock_timeout():
             run = run_scheduled(world, make_actors, case["schedule"], seed=case.get("seed", 0), on_event=on_event if faulty else None)
+        if sc.get("lock_timeout") and world.kind == "local":
+            out["labels"].append("short-lock-timeout")
+            if any(r_.get("create_error", "").startswith("TimeoutError") for r_ in results.values()):
+                out["labels"].append("creator-timed-out")
         if fired:
             out["labels"].append("creator-pointer-write-failed")
         out["labels"] += [f"world:{sc['world']}", f"init:{sc['init']}"] + (["lock:no-exclusion"] if noexcl else [])
@@ -234,6 +265,8 @@ FIXED = [
     {"world": "s3cas", "init": "absent", "lock": "noexcl", "actors": ["create_A", "create_B"]},
     {"world": "local", "init": "absent", "actors": ["create_A_fault", "create_B_append_arg"]},
     {"world": "local", "init": "absent", "actors": ["create_A_fault", "load", "create_A_append"]},
+    {"world": "local", "init": "absent", "lock_timeout": 0.05, "actors": ["create_A", "create_B_append_arg"]},
+    {"world": "local", "init": "interrupted", "lock_timeout": 0.05, "actors": ["create_B", "create_A_append"]},
 ]
 
 
@@ -249,6 +282,11 @@ def run_enum(task):
         for i in range(1, int(D * 1.15) + 2):
             for j in range(n):
                 scheds.append({"order": order, "preempt": [[i, j]]})
+    if sc.get("lock_timeout"):
+        # a creator STOPPED at decision i (possibly while holding the lock) until the others have finished or given up
+        for order in (list(range(n)), list(reversed(range(n)))):
+            for i in range(1, int(D * 1.15) + 2):
+                scheds.append({"order": order, "freeze": [[i, order[0]]]})
     for idx, schd in enumerate(scheds):
         if idx % task["nshard"] != task["shard"]:
             continue
@@ -271,7 +309,8 @@ def pct_case(draw):
     if lock == "noexcl":
         # without lock exclusion only creation is C18's subject (commits racing without a lock are C08's)
         actors = [a.split("_append")[0] for a in actors]
-    return {"kind": "sched", "sc": {"world": draw(st.sampled_from(["local", "s3cas"])), "init": draw(st.sampled_from(INITS)), "actors": actors, "lock": lock},
+    return {"kind": "sched", "sc": {"world": draw(st.sampled_from(["local", "s3cas"])), "init": draw(st.sampled_from(INITS)), "actors": actors, "lock": lock,
+                                    **({"lock_timeout": draw(st.sampled_from([0.03, 0.05, 0.2]))} if draw(st.integers(0, 3)) == 0 else {})},
             "schedule": {"order": list(order), "preempt": sorted(pre)}, "seed": draw(st.integers(0, 3))}
 
 
